@@ -96,6 +96,26 @@ func (e *emitter) markExpr(full bool) {
 	}
 }
 
+// leftmostHazard returns the object literal / function expression that the text of n would begin with (nil if none).
+func leftmostHazard(n *Node, minPrec int) *Node {
+	if n.prec() < minPrec || n.Paren > 0 {
+		return nil
+	}
+	switch n.K {
+	case KObj, KFunc:
+		return n
+	case KBin:
+		return leftmostHazard(n.Kids[0], n.prec())
+	case KAsg, KPost, KCall, KDot, KIdx:
+		return leftmostHazard(n.Kids[0], pCall)
+	case KRaw:
+		if n.Text == "infix" || n.Text == "postfix" {
+			return leftmostHazard(n.Kids[0], 0)
+		}
+	}
+	return nil
+}
+
 // startsHazard: would the expression, rendered with minimal parentheses under
 // minPrec, begin with '{' or 'function' (not allowed at the start of an
 // expression statement)?
@@ -363,7 +383,13 @@ func (e *emitter) stmt(n *Node) {
 	case KExprStmt:
 		x := n.Kids[0]
 		e.markExpr(true)
-		if startsHazard(x, pAsg) {
+		if h := leftmostHazard(x, pAsg); h != nil && h != x && x.Size()%2 == 0 { // a property of the tree, so that every rendering of it agrees
+			// parenthesise only the object literal / function expression the statement would begin with:
+			// `(function(){}) == f`, `({}).a`, `(function(){})()`
+			h.Paren++
+			e.expr(x, pAsg)
+			h.Paren--
+		} else if startsHazard(x, pAsg) {
 			e.markExpr(false)
 			e.punct("(", nil)
 			e.markExpr(true)
@@ -575,6 +601,11 @@ func layout(in []Tok, eof Tok, r *rand.Rand, lay Layout) *Rendered {
 		if t.VSemi {
 			closes := isEOF || t.Text == "}"
 			hazard := !isEOF && contHazard(&t)
+			if hazard && prev != nil && prev.Kind == TKeyword && prev.Text == "return" && !(lay.Smart && (t.Text == "(" || t.Text == "[")) {
+				// restricted production: after a bare `return` a line break ends the statement whatever follows
+				// (`return⏎-x`, `return⏎(x)`, `return⏎[x]` are `return;` plus another statement)
+				hazard = false
+			}
 			incdec := t.Text == "++" || t.Text == "--"
 			writeSemi := chance(lay.Semi)
 			if !writeSemi {
